@@ -95,7 +95,7 @@ class World(object):
     return h
 
   def _run_once(self, recv_ops, writer_plan, policy=None, step_monitor=None, timeout=30.0, drain_rest=True,
-                t0_offset=0.0, receivers=0, pre=None, snap_stores=False, fault_plan=None, rest_via_hook=False):
+                t0_offset=0.0, receivers=0, pre=None, snap_stores=False, fault_plan=None, rest_via_hook=False, fault_metrics=None):
     cc, writer, state = self.cc, self.writer, self.state
     import random as _random
     _random.seed(424242)          # RandomStrategy uses the global PRNG: keep runs replayable
@@ -114,6 +114,8 @@ class World(object):
     memdb.reset()
     if fault_plan:
       memdb.FAULT_PLAN.update({int(k): v for k, v in fault_plan.items()})
+    if fault_metrics:
+      memdb.FAULT_METRICS.update(fault_metrics)      # damaged files: every write to these metrics raises
     state.database.files.clear()
     # shutdownModifyUpdateSpeed() assigns settings.MIN_TIMESTAMP_LAG = 0: Settings has no __setattr__, so that creates
     # an instance attribute shadowing the dict item for the rest of the process - drop it as well
